@@ -190,6 +190,8 @@ def mk_aligned(G, C):
 
 
 ENCODED = [
+    ("src/cogent3/core/alignment.py", ["SequenceCollection / Alignment / ArrayAlignment .to_rich_dict", "Aligned.to_rich_dict", "__getitem__ / rc / take_seqs before export"]),
+    ("src/cogent3/util/deserialise.py", ["deserialise_object", "deserialise_seq_collections", "deserialise_seq", "deserialise_map_spans / deserialise_indelmap"]),
     ("src/cogent3/core/sequence.py", ["SeqView.to_rich_dict", "SeqView.from_rich_dict", "SeqView.copy(sliced=True)", "Sequence.to_rich_dict", "Sequence.parent_coordinates"]),
     ("src/cogent3/core/new_sequence.py", ["SeqView.to_rich_dict", "SeqView.copy(sliced=True)"]),
     ("src/cogent3/util/deserialise.py", ["deserialise_seq", "_from_seqview", "deserialise_seqview", "deserialise_indelmap (plain replay)"]),
@@ -198,8 +200,8 @@ ENCODED = [
 ]
 BOUNDS = {
     "quick": ["views: any invariant-satisfying (start, stop) on a parent of any length, step C in {-3..3}\\{0}, any offset >= 0", "indel maps: <= 2 gap runs, unbounded coordinates; feature maps: <= 3 spans (spans and lost spans)",
-              "alignment rows: <= 1 gap run (thorough 2), both strands", "trees: to_rich_dict -> deserialise_tree for every shape with 3..4 tips (thorough 5) and symbolic branch lengths (names fixed)"],
-    "thorough": ["as quick with C in {-6..6}\\{0}; rows with <= 2 gap runs"],
+              "alignment rows: <= 1 gap run (thorough 2), both strands", "whole objects: SequenceCollection / Alignment / ArrayAlignment of 2 rows x 3 columns with symbolic content (2 symbolic characters of row a over {A,C,-,N}, first of row b over {G,-}), after none / slice[i:j] / rc / take_seqs / slice+rc, through JSON and back, twice", "trees: to_rich_dict -> deserialise_tree for every shape with 3..4 tips (thorough 5) and symbolic branch lengths (names fixed)"],
+    "thorough": ["as quick with C in {-6..6}\\{0}; rows with <= 2 gap runs; whole objects with 3 symbolic characters"],
 }
 ASSUMPTIONS = c01.ASSUMPTIONS[:2] + [
     "rich-dict level: json.dumps / json.loads are replaced by a structural copy (identity on ints, lists, str)",
@@ -207,7 +209,7 @@ ASSUMPTIONS = c01.ASSUMPTIONS[:2] + [
     "numpy object arrays stand in for integer arrays in maps",
     "cogent3.core.sequence.hasattr rebound to an equivalent pure-Python hasattr (CrossHair's patched hasattr evaluates properties with tracing disabled)",
 ]
-OUTSIDE = ["the other registered types: collections / alignments as a whole, trees' JSON *text* (float formatting), tables, dict-arrays, alphabets, moltypes, annotation dbs, substitution models, likelihood functions, app results, NotCompleted; pickling (numpy / JSON / SQLite / pickle at C level: no symbolic content reaches an assertion)"]
+OUTSIDE = ["the other registered types: trees' JSON *text* (float formatting), tables, dict-arrays, alphabets, moltypes, annotation dbs, substitution models, likelihood functions, app results, NotCompleted; pickling (numpy / JSON / SQLite / pickle at C level: no symbolic content reaches an assertion)"]
 TRUSTED = ["C01 slice model, C08 gap-run reader"]
 
 
@@ -232,10 +234,19 @@ def obligations(tier):
     for C in (1, -1):
         for G in ((0, 1, 2) if T else (0, 1)):
             obs.append(Ob(f"aligned/G{G}/C{C}", __name__, "mk_aligned", {"G": G, "C": C}, timeout=1200, group="rows"))
+    from props import c10_objects
+
+    for kind in c10_objects.KINDS:
+        for hist in c10_objects.HISTORIES:
+            if kind == "SequenceCollection" and hist in ("slice", "slice_rc"):
+                continue
+            obs.append(Ob(f"objects/{kind}/{hist}", "props.c10_objects", "mk_object", {"kind": kind, "history": hist, "nsym": (3 if T else 2) - (1 if hist.startswith("slice") else 0)}, timeout=3600 if T else 1800, group="objects"))
     return obs
 
 
 def classify(name, args, cex, rep):
+    if name.startswith("objects/"):
+        return None
     if name.startswith("sequence_roundtrip"):
         return "Sequence.to_rich_dict:roundtrip"
     if name.startswith("aligned/"):
